@@ -90,6 +90,11 @@ fn probes_for(prop: &str, seed: u64, which: &str) -> Vec<Layout> {
             (3..=128).filter(|&n| is_native(n) || n % 2 == 1 || n % 8 == 2).collect()
         };
         for &n in &widths {
+            // class B: declarations addressing bits >= N (for a native base: bits the storage does not have)
+            if n < 128 {
+                let mut rng = Rng::new(mix(&[seed, TAG_PROBE, 12, n as u64]));
+                out.extend(gen_probes(&mut rng, n, PROBE_ID_BASE + n * 100));
+            }
             let mut rng = Rng::new(mix(&[seed, TAG_MISMATCH, 12, n as u64]));
             out.extend(gen_mismatch_probes(&mut rng, n, MISMATCH_ID_BASE + n * 100, false));
             // class E: fields whose bitenum breaks the bitenum rules
